@@ -3,11 +3,11 @@
 package mc
 
 import (
-	"os"
 	"encoding/json"
 	"fmt"
 	"math"
 	"math/big"
+	"os"
 	"time"
 
 	sdkmath "cosmossdk.io/math"
@@ -126,7 +126,7 @@ func (g *c03Grid) cell(bi, bo sdkmath.Int) {
 				aEff := new(big.Rat).Mul(new(big.Rat).SetInt(a.BigInt()), oneMinusFee)
 				biR, boR := new(big.Rat).SetInt(bi.BigInt()), new(big.Rat).SetInt(bo.BigInt())
 				y := new(big.Rat).Quo(biR, new(big.Rat).Add(biR, aEff)) // <= 1
-				var excess float64 // impl − reference, in base units
+				var excess float64                                      // impl − reference, in base units
 				var allow float64
 				if equal {
 					ref := new(big.Rat).Mul(boR, new(big.Rat).Sub(big.NewRat(1, 1), y)) // exact
@@ -166,7 +166,7 @@ func (g *c03Grid) cell(bi, bo sdkmath.Int) {
 				g.st.Clauses["exact_out_"+regime]++
 				biR, boR := new(big.Rat).SetInt(bi.BigInt()), new(big.Rat).SetInt(bo.BigInt())
 				y := new(big.Rat).Quo(boR, new(big.Rat).Sub(boR, new(big.Rat).SetInt(o.BigInt()))) // >= 1
-				var short, allow float64 // reference − impl
+				var short, allow float64                                                           // reference − impl
 				if equal {
 					ref := new(big.Rat).Quo(new(big.Rat).Mul(biR, new(big.Rat).Sub(y, big.NewRat(1, 1))), oneMinusFee)
 					short = f64(new(big.Rat).Sub(ref, new(big.Rat).SetInt(in.Amount.BigInt())))
@@ -329,7 +329,6 @@ func (e *c03Env) seq(st *KStats, pi int) {
 		}
 	}
 }
-
 
 // ---------------------------------------------------------------------------------------------
 // part "msgseq": every sequence (up to a depth) of swap MESSAGES of one trader on one pool, through
@@ -563,68 +562,92 @@ func (e *c03Env) oracleCell(st *KStats, si, pi int) {
 				}
 				pa, pu := ratOfDec(Dec(c03Prices[pi])), big.NewRat(1, 1)
 				priceOf := map[string]*big.Rat{"uatom": pa, "uusdc": pu}
-				for _, dir := range [][2]string{{"uusdc", "uatom"}, {"uatom", "uusdc"}} {
-					for _, exactOut := range []bool{false, true} {
-						ref := want[dir[0]]
-						if exactOut {
-							ref = want[dir[1]]
-						}
-						for _, amt := range []sdkmath.Int{sdkmath.NewInt(1), sdkmath.NewInt(10), sdkmath.NewInt(1000), ref.QuoRaw(1000000), ref.QuoRaw(1000), ref.QuoRaw(100), ref.QuoRaw(10), ref.QuoRaw(3)} {
-							if !amt.IsPositive() {
-								continue
-							}
-							c, _ := base.CacheContext()
-							p, _ := app.AmmKeeper.GetPool(c, 1)
-							bal := func(a sdk.AccAddress, d string) sdkmath.Int { return app.BankKeeper.GetBalance(c, a, d).Amount }
-							tin0, tout0 := bal(who, dir[0]), bal(who, dir[1])
-							pin0, pout0 := bal(poolAddr, dir[0]), bal(poolAddr, dir[1])
-							trOut0 := bal(treasury, dir[1])
-							st.Evaluations++
-							var err error
-							poolPays := amt // what the pool itself owes the trader (exact-out: the requested amount)
-							if exactOut {
-								_, err = app.AmmKeeper.InternalSwapExactAmountOut(c, who, who, p, dir[0], sdkmath.NewInt(1e15), sdk.NewCoin(dir[1], amt), p.PoolParams.SwapFee)
-							} else {
-								poolPays, err = app.AmmKeeper.InternalSwapExactAmountIn(c, who, who, p, sdk.NewCoin(dir[0], amt), dir[1], sdkmath.OneInt(), p.PoolParams.SwapFee)
-							}
-							if err != nil {
-								st.Clauses["oracle_swap_refused"]++
-								continue
-							}
-							st.Clauses["oracle_swap"]++
-							paid := tin0.Sub(bal(who, dir[0]))
-							got := bal(who, dir[1]).Sub(tout0)
-							poolOut := pout0.Sub(bal(poolAddr, dir[1]))
-							poolIn := bal(poolAddr, dir[0]).Sub(pin0)
-							fromTreasury := trOut0.Sub(bal(treasury, dir[1]))
-							if fromTreasury.IsNegative() {
-								fromTreasury = sdkmath.ZeroInt()
-							}
-							in := map[string]interface{}{"part": "oracle", "shape": si, "price": c03Prices[pi], "ext_ratio": er, "fee": fee, "treasury": tr, "in": dir[0], "exact_out": exactOut, "amount": amt.String()}
-							// what the pool itself paid out is worth no more than what the trader paid in (+1 unit of out)
-							vOut := new(big.Rat).Mul(new(big.Rat).SetInt(poolOut.BigInt()), priceOf[dir[1]])
-							vIn := new(big.Rat).Mul(new(big.Rat).SetInt(paid.BigInt()), priceOf[dir[0]])
-							slack := new(big.Rat).Add(priceOf[dir[1]], priceOf[dir[0]])
-							if vOut.Cmp(new(big.Rat).Add(vIn, slack)) > 0 {
-								find(Finding{Clause: "oracle_pool_pays_more_than_received", Culprit: "keeper_swap", Disc: fmt.Sprintf("exact_out=%v", exactOut), Detail: fmt.Sprintf("shape %v ATOM=%s ext=%s fee=%s treasury=%d: trader paid %s%s (value %s), pool address paid out %s%s (value %s)", c03Shapes[si], c03Prices[pi], er, fee, tr, paid, dir[0], vIn.FloatString(3), poolOut, dir[1], vOut.FloatString(3))}, in)
-							}
-							// anything the trader got beyond the swap's own out amount is the rebalancing bonus: it must
-							// be covered by the treasury's balance of the out token before the swap (the pool address
-							// also moves out-tokens for the fee conversion, so the bonus is measured on the trader's side)
-							extra := got.Sub(poolPays)
-							if extra.IsNegative() {
-								find(Finding{Clause: "trader_received_less_than_swap_amount", Culprit: "keeper_swap", Disc: fmt.Sprintf("exact_out=%v", exactOut), Detail: fmt.Sprintf("swap reports %s out, trader's balance grew by %s", poolPays, got)}, in)
-							}
-							if extra.IsPositive() {
-								st.Clauses["oracle_swap_with_bonus"]++
-								if extra.GT(trOut0) {
-									find(Finding{Clause: "bonus_exceeds_treasury", Culprit: "keeper_swap", Disc: fmt.Sprintf("exact_out=%v", exactOut), Detail: fmt.Sprintf("trader received a bonus of %s %s, the rebalance treasury held only %s", extra, dir[1], trOut0)}, in)
+				for _, acc := range []bool{true, false} {
+					for _, prior := range []string{"none", "opposite", "same"} {
+						for _, dir := range [][2]string{{"uusdc", "uatom"}, {"uatom", "uusdc"}} {
+							for _, exactOut := range []bool{false, true} {
+								ref := want[dir[0]]
+								if exactOut {
+									ref = want[dir[1]]
 								}
-								if fromTreasury.LT(extra.SubRaw(2)) {
-									find(Finding{Clause: "bonus_not_from_treasury", Culprit: "keeper_swap", Disc: fmt.Sprintf("exact_out=%v", exactOut), Detail: fmt.Sprintf("trader received a bonus of %s %s but the treasury's balance fell only by %s", extra, dir[1], fromTreasury)}, in)
+								for _, amt := range []sdkmath.Int{sdkmath.NewInt(1), sdkmath.NewInt(10), sdkmath.NewInt(1000), ref.QuoRaw(1000000), ref.QuoRaw(1000), ref.QuoRaw(100), ref.QuoRaw(10), ref.QuoRaw(3)} {
+									if !amt.IsPositive() {
+										continue
+									}
+									c, _ := base.CacheContext()
+									if !acc {
+										// a pool that was never enabled for leverage / perpetuals has no accounted pool
+										app.AccountedPoolKeeper.RemoveAccountedPool(c, 1)
+									}
+									if prior != "none" {
+										// an EARLIER swap of another trader in the SAME block (it fixes the block-start
+										// snapshot in the transient store and moves the reserves)
+										pp, _ := app.AmmKeeper.GetPool(c, 1)
+										pin, pout := dir[1], dir[0]
+										if prior == "same" {
+											pin, pout = dir[0], dir[1]
+										}
+										if _, perr := app.AmmKeeper.InternalSwapExactAmountIn(c, rich, rich, pp, sdk.NewCoin(pin, want[pin].QuoRaw(5).AddRaw(1)), pout, sdkmath.OneInt(), pp.PoolParams.SwapFee); perr != nil {
+											st.Clauses["oracle_prior_swap_refused"]++
+											continue
+										}
+									}
+									p, _ := app.AmmKeeper.GetPool(c, 1)
+									bal := func(a sdk.AccAddress, d string) sdkmath.Int { return app.BankKeeper.GetBalance(c, a, d).Amount }
+									tin0, tout0 := bal(who, dir[0]), bal(who, dir[1])
+									pin0, pout0 := bal(poolAddr, dir[0]), bal(poolAddr, dir[1])
+									trOut0 := bal(treasury, dir[1])
+									st.Evaluations++
+									var err error
+									poolPays := amt // what the pool itself owes the trader (exact-out: the requested amount)
+									if exactOut {
+										_, err = app.AmmKeeper.InternalSwapExactAmountOut(c, who, who, p, dir[0], sdkmath.NewInt(1e15), sdk.NewCoin(dir[1], amt), p.PoolParams.SwapFee)
+									} else {
+										poolPays, err = app.AmmKeeper.InternalSwapExactAmountIn(c, who, who, p, sdk.NewCoin(dir[0], amt), dir[1], sdkmath.OneInt(), p.PoolParams.SwapFee)
+									}
+									if err != nil {
+										st.Clauses["oracle_swap_refused"]++
+										continue
+									}
+									st.Clauses["oracle_swap"]++
+									paid := tin0.Sub(bal(who, dir[0]))
+									got := bal(who, dir[1]).Sub(tout0)
+									poolOut := pout0.Sub(bal(poolAddr, dir[1]))
+									poolIn := bal(poolAddr, dir[0]).Sub(pin0)
+									fromTreasury := trOut0.Sub(bal(treasury, dir[1]))
+									if fromTreasury.IsNegative() {
+										fromTreasury = sdkmath.ZeroInt()
+									}
+									in := map[string]interface{}{"part": "oracle", "shape": si, "price": c03Prices[pi], "ext_ratio": er, "fee": fee, "treasury": tr, "in": dir[0], "exact_out": exactOut, "amount": amt.String(), "prior_swap_same_block": prior, "accounted_pool": acc}
+									if prior != "none" {
+										st.Clauses["oracle_swap_after_prior_"+prior]++
+									}
+									// what the pool itself paid out is worth no more than what the trader paid in (+1 unit of out)
+									vOut := new(big.Rat).Mul(new(big.Rat).SetInt(poolOut.BigInt()), priceOf[dir[1]])
+									vIn := new(big.Rat).Mul(new(big.Rat).SetInt(paid.BigInt()), priceOf[dir[0]])
+									slack := new(big.Rat).Add(priceOf[dir[1]], priceOf[dir[0]])
+									if vOut.Cmp(new(big.Rat).Add(vIn, slack)) > 0 {
+										find(Finding{Clause: "oracle_pool_pays_more_than_received", Culprit: "keeper_swap", Disc: fmt.Sprintf("exact_out=%v", exactOut), Detail: fmt.Sprintf("shape %v ATOM=%s ext=%s fee=%s treasury=%d prior=%s accounted=%v: trader paid %s%s (value %s), pool address paid out %s%s (value %s)", c03Shapes[si], c03Prices[pi], er, fee, tr, prior, acc, paid, dir[0], vIn.FloatString(3), poolOut, dir[1], vOut.FloatString(3))}, in)
+									}
+									// anything the trader got beyond the swap's own out amount is the rebalancing bonus: it must
+									// be covered by the treasury's balance of the out token before the swap (the pool address
+									// also moves out-tokens for the fee conversion, so the bonus is measured on the trader's side)
+									extra := got.Sub(poolPays)
+									if extra.IsNegative() {
+										find(Finding{Clause: "trader_received_less_than_swap_amount", Culprit: "keeper_swap", Disc: fmt.Sprintf("exact_out=%v", exactOut), Detail: fmt.Sprintf("swap reports %s out, trader's balance grew by %s", poolPays, got)}, in)
+									}
+									if extra.IsPositive() {
+										st.Clauses["oracle_swap_with_bonus"]++
+										if extra.GT(trOut0) {
+											find(Finding{Clause: "bonus_exceeds_treasury", Culprit: "keeper_swap", Disc: fmt.Sprintf("exact_out=%v", exactOut), Detail: fmt.Sprintf("trader received a bonus of %s %s, the rebalance treasury held only %s", extra, dir[1], trOut0)}, in)
+										}
+										if fromTreasury.LT(extra.SubRaw(2)) {
+											find(Finding{Clause: "bonus_not_from_treasury", Culprit: "keeper_swap", Disc: fmt.Sprintf("exact_out=%v", exactOut), Detail: fmt.Sprintf("trader received a bonus of %s %s but the treasury's balance fell only by %s", extra, dir[1], fromTreasury)}, in)
+										}
+									}
+									_ = poolIn
 								}
 							}
-							_ = poolIn
 						}
 					}
 				}
